@@ -202,7 +202,7 @@ func runC16(c *Ctx) {
 	c.Rule("R16.4", "E1", "Errored event ⇒ watchErrors + processing stops; callers return; Run reports the error", 6)
 
 	if f := p.Method(pkgRuntime, "Runtime", "processEvents"); c.NeedFunc("R16.4", f, "Runtime.processEvents") {
-		errored := p.EdgeSuccs(f, "eq(*var:e.Type,"+p.ConstVal(pkgState, "Errored")+")")
+		errored := p.EdgeSuccs(f, "eq(*var:pkg/state.Event.Type,"+p.ConstVal(pkgState, "Errored")+")")
 		isSend := func(in ssa.Instruction) bool {
 			s, ok := in.(*ssa.Send)
 
@@ -212,7 +212,7 @@ func runC16(c *Ctx) {
 		c.NoReach("R16.4", "Errored: processing stops (returns false, no further event handled)", f, errored, 1, OrInstr(p.RetIs(0, "const:true"), func(in ssa.Instruction) bool { _, ok := in.(*ssa.MapUpdate); return ok }), CutSpec{})
 
 		for _, in := range Find(f, isSend) {
-			c.Check(p.Desc(in.(*ssa.Send).X) == "*var:e.Error", "R16.4", FuncName(f)+" :: forwards the event's error", in.Pos(), "e.Error", "sends "+p.Desc(in.(*ssa.Send).X))
+			c.Check(p.Desc(in.(*ssa.Send).X) == "*var:pkg/state.Event.Error", "R16.4", FuncName(f)+" :: forwards the event's error", in.Pos(), "e.Error", "sends "+p.Desc(in.(*ssa.Send).X))
 		}
 	}
 
